@@ -678,3 +678,97 @@ def check_C13(tier, seed):
     return rep.finish()
 
 
+
+
+def c03_roundtrip_cases(quick):
+    """(name, text, expected dump literal) for every catalogue grammar."""
+    cats = (cores.all_c01() + cores.context_catalogue() + cores.state_catalogue() + cores.throw_catalogue() + cores.fault_catalogue() +
+            cores.fail_catalogue() + cores.lr_catalogue() + cores.opt_catalogue() + cores.utf8_catalogue() + cores.budget_catalogue() +
+            cores.class_catalogue() + cores.cyclic_catalogue())
+    if quick:
+        cats = cats[::3]
+    out = []
+    styles = [dict(sep=" ", ruleop="<-", rule_end="\n\n"), dict(sep="\n\t", ruleop="=", rule_end=";\n"),
+              dict(sep="  ", ruleop="←", rule_end=" // c\n"), dict(sep=" /* x */ ", ruleop="⟵", rule_end="\n")]
+    for i, g in enumerate(cats):
+        g = json.loads(json.dumps(g))
+        st = styles[i % len(styles)]
+        text, g2 = gspec.print_grammar_pos(g, "p", **st)
+        exp = gspec.expected_dump(g2, text, with_pos=True)
+        if quick and len(text) > 700:
+            continue  # long code blocks in nested groups: minutes of interpretation, thorough only
+        out.append((g["name"], text, gspec.go_any(exp)))
+    return out
+
+
+def check_C03(tier, seed):
+    rep = Report("C03", tier, seed, "model_checking")
+    w = Work()
+    w.build_pigeon()
+    quick = tier == "quick"
+    rt = c03_roundtrip_cases(quick)
+    src = ["package main\n\nimport \"github.com/mna/pigeon/ast\"\n\ntype c03Case struct {\n\tname, text string\n\twant any\n}\n\nvar c03Cases = []c03Case{\n"]
+    for name, text, want in rt:
+        src.append("\t{%s, %s, %s},\n" % (go_str_lit(name), go_str_lit(text), want))
+    src.append("}\n")
+    src.append('''
+// C03 round trip: the text printed from a catalogue AST is accepted and parses
+// back to exactly that AST, every node positioned at its first token.
+func Harness_C03rt(n int) {
+	cs := c03Cases[n]
+	g, err := Parse("", []byte(cs.text))
+	symNote(cs.name)
+	symAssert(err == nil, "C03: text in the documented syntax was rejected")
+	if err == nil {
+		got := symDumpGrammar(g.(*ast.Grammar), true)
+		symDebug("got", got)
+		symDebug("want", cs.want)
+		symAssert(symEqual(got, cs.want), "C03: the AST differs from the one the text denotes (structure, values or positions)")
+	}
+	symReach("end")
+}
+''')
+    # layout / comment holes on a few skeletons
+    skel = [g for g in cores.composites() + cores.throw_catalogue()[:3] + cores.context_catalogue()[:3]][: (4 if quick else 12)]
+    lay = []
+    maxseps = 1
+    for g in skel:
+        g = json.loads(json.dumps(g))
+        text, g2 = gspec.print_grammar_pos(g, "p")
+        seps = g2["_sep_offs"]
+        if quick:
+            seps = seps[::max(1, len(seps) // 6)][:6]
+        maxseps = max(maxseps, len(seps))
+        lay.append((g["name"], text, seps, gspec.go_any(gspec.expected_dump(g2, text, with_pos=False))))
+    hole_len = 2 if quick else 3
+    src.append("\ntype c03Lay struct {\n\tname string\n\ttext []byte\n\tseps []int\n\twant any\n}\n\nvar c03Layout = []c03Lay{\n")
+    for name, text, seps, want in lay:
+        src.append("\t{%s, []byte(%s), []int{%s}, %s},\n" % (go_str_lit(name), go_str_lit(text), ", ".join(str(s) for s in seps), want))
+    src.append("}\n\nconst c03MaxSeps = %d\nconst c03HoleLen = %d\n" % (maxseps, hole_len))
+    files = {"zz_verif_main.go": open(os.path.join(VERIF, "harness", "main_common.go")).read(),
+             "zz_verif_dump.go": open(os.path.join(VERIF, "harness", "astdump_main.go")).read(),
+             "zz_verif_c03h.go": open(os.path.join(VERIF, "harness", "c03_holes_main.go")).read(),
+             "zz_verif_c03.go": "".join(src)}
+    names = ["Harness_C03rt", "Harness_C03layout", "Harness_C03comment", "Harness_C03escape", "Harness_C03class", "Harness_C03op", "Harness_C03ident"]
+    ov = RepoOverlay(w, ".", "main", files, names)
+    agg = overlay_explore(rep, "C03", ov, "Harness_C03rt$", 0, len(rt) - 1, 120, "c03_roundtrip", sample_every=1, max_triage=5, max_steps=20_000_000 if quick else 400_000_000)
+    lay_args = [ci * maxseps + si for ci, (_, _, seps, _) in enumerate(lay) for si in range(len(seps))]
+    tmo = 120 if quick else 900
+    agg = merge_agg(agg, overlay_explore(rep, "C03", ov, "Harness_C03layout$", 0, 0, tmo, "c03_layout", sample_every=23, max_triage=3, args=set(lay_args)))
+    agg = merge_agg(agg, overlay_explore(rep, "C03", ov, "Harness_C03comment$", 0, 0, tmo, "c03_comment", sample_every=23, max_triage=3, args=set(lay_args[::2] if quick else lay_args)))
+    esc_args = [q * 16 + n for q in (0, 1) for n in ((1, 3) if quick else (1, 3, 5, 9))]
+    agg = merge_agg(agg, overlay_explore(rep, "C03", ov, "Harness_C03escape$", 0, 0, tmo, "c03_escape", sample_every=23, max_triage=3, args=set(esc_args)))
+    agg = merge_agg(agg, overlay_explore(rep, "C03", ov, "Harness_C03class$", 0, 3 if quick else 4, tmo, "c03_class", sample_every=23, max_triage=3))
+    agg = merge_agg(agg, overlay_explore(rep, "C03", ov, "Harness_C03op$", 0, 0, tmo, "c03_op", sample_every=3, max_triage=3))
+    agg = merge_agg(agg, overlay_explore(rep, "C03", ov, "Harness_C03ident$", 1, 2 if quick else 3, tmo, "c03_ident", sample_every=23, max_triage=3))
+    agg.pop("_samples", None)
+    std_cov(rep, agg, rt, {"roundtrip_grammars": len(rt), "layouts": "4 styles: spaces, newline+tab with = and ;, unicode arrows with // and /* */ comments",
+                           "layout_holes": "%d symbolic layout bytes at %d token boundaries of %d skeletons; comments with 2 symbolic bytes" % (hole_len, len(lay_args), len(lay)),
+                           "escape_holes": "escape bodies of length %s in double and single quotes, all bytes symbolic, assumed valid by the reference decoder" % ("1,3" if quick else "1,3,5,9"),
+                           "class_holes": "class bodies of <= %d symbolic printable ASCII bytes, ^ and i symbolic" % (3 if quick else 4),
+                           "operator_holes": "prefix and suffix operator symbolic in a skeleton using all eight binding levels",
+                           "identifier_holes": "identifiers of <= %d symbolic ASCII characters" % (2 if quick else 3)},
+            "one state = one explored path of the real front end (class of hole contents); the round trip has one path per grammar",
+            ["main.Parse (generated front end, pigeon.go) with all actions", "ast.New*", "(*CharClassMatcher).parse", "strconv.Unquote/UnquoteChar (std, SSA)", "validateUnicodeEscape"])
+    rep.assumptions += ["expected ASTs and positions come from the catalogue printer (catalog/gspec.py), independent of pigeon"]
+    return rep.finish()
